@@ -54,6 +54,49 @@ def walks_to_behaviours(g, walks):
     return beh
 
 
+def counterexample_steps(r):
+    """[(action, [args], woken-after)] of a TLC error trace (this TLC prints  State n: <Action("t") line ...>)."""
+    out = []
+    txt = r.counterexample()
+    for m in re.finditer(r'State \d+: <(\w+)(?:\((.*?)\))? line[^\n]*\n(.*?)(?=\nState \d+:|\Z)', txt, re.S):
+        name, args, body = m.group(1), m.group(2) or "", m.group(3)
+        st = tlagraph.parse_state(body)
+        out.append((name, re.findall(r'"(\w+)"', args), sorted(re.findall(r'"(w\d+)"', st.get("woken", "")))))
+    return out
+
+
+def witnesses(ctx):
+    """Fixed witness schedules = TLC counterexamples of defective designs (Defects branches of ReadyQueue.tla). They are
+    always replayed on the real code: a code base that has the defect follows the counterexample and the monitor sees the
+    consequence; the correct code leaves the schedule at the defective step (drift, expected) and finishes normally."""
+    # (a) puppet-replayable (Handoff) counterexample: atomic-step walk
+    r = ctx.tlc(SPEC, "Wit_LPopNoRecheck.cfg", module="MC_ReadyQueue", timeout=600, expect_fail=True, workers=2, name="wit-lpop")
+    if r.violated != "NotHidden":
+        raise vlib.Infra("Wit_LPopNoRecheck.cfg no longer yields a NotHidden counterexample (%s)" % r.violated)
+    walk = [{"a": a, "args": args, "wk": wk} for a, args, wk in counterexample_steps(r)]
+    if len(walk) < 10 or not any(s["a"] == "StealStore2" for s in walk):
+        raise vlib.Infra("could not parse the LPopNoRecheck counterexample")
+    # (b) counterexample that needs pushes between a Signal and the wake-up (not gateable): operation-level projection
+    r = ctx.tlc(SPEC, "Wit_SignalOnFirstOnly.cfg", module="MC_ReadyQueue", timeout=600, expect_fail=True, workers=2, name="wit-signal")
+    if r.violated != "NoSleepWhileGlobalWork":
+        raise vlib.Infra("Wit_SignalOnFirstOnly.cfg no longer yields a NoSleepWhileGlobalWork counterexample (%s)" % r.violated)
+    ops = []
+    for a, args, wk in counterexample_steps(r):
+        if a == "TakeCall":
+            ops.append({"op": "take", "t": args[0], "n": 0})
+        elif a == "PushCall":
+            if ops and ops[-1]["op"] == "push":
+                ops[-1]["n"] += 1
+            else:
+                ops.append({"op": "push", "t": args[0], "n": 1})
+        elif a == "Wake" and ops and ops[-1]["op"] == "push":
+            ops.append({"op": "sync", "t": args[0], "n": 0})     # pushes after a wake-up form a new burst
+    ops = [o for o in ops if o["op"] != "sync" or True]
+    if not any(o["op"] == "push" and o["n"] >= 2 for o in ops) or sum(o["op"] == "take" for o in ops) < 2:
+        raise vlib.Infra("could not project the SignalOnFirstOnly counterexample: %s" % ops)
+    return walk, ops
+
+
 def run(ctx, pid):
     quick = ctx.quick
     rng = ctx.rng
@@ -161,6 +204,27 @@ def run(ctx, pid):
 
     f_seq = pool.submit(seq, 15 if quick else 200, 2)
 
+    # ------------------------------------------------------------------ 5. fixed witness schedules (always replayed)
+    def witness():
+        walk, ops = witnesses(ctx)
+        with lock:
+            bfile, evs, steps = ctx.tmp("beh-wit.ndjson"), ctx.tmp("events-wit.ndjson"), ctx.tmp("steps-wit.ndjson")
+            ofile, evb = ctx.tmp("ops-burst.ndjson"), ctx.tmp("events-burst.ndjson")
+        vlib.write_ndjson(bfile, [walk] * 3)
+        vlib.write_ndjson(ofile, [ops] * 3)
+        st = json.loads(ctx.run([exe, "replay", "2", bfile, evs, steps], timeout=600).stdout.strip().splitlines()[-1])
+        sb = json.loads(ctx.run([exe, "burst", "2", ofile, evb], timeout=600).stdout.strip().splitlines()[-1])
+        with lock:
+            t = ctx.tmp("events-witness.ndjson")
+        with open(t, "w") as out:
+            for fn in (evs, evb):
+                with open(fn) as f:
+                    out.write(f.read())
+        nl, mism = monitor(ctx, lock, "witness", t, timeout=900)
+        return walk, ops, st, sb, t, nl, mism
+
+    f_wit = pool.submit(witness)
+
     plans = [("q", 2, 700)] if quick else [("q", 2, 10 ** 9), ("a", 2, 5000), ("b", 3, 5000)]
     f_replay = [pool.submit(replay, *p) for p in plans]
 
@@ -190,6 +254,15 @@ def run(ctx, pid):
         if len(samples) < 3:
             samples.append({"walk_" + tag: [[s["a"]] + s["args"] for s in beh[0]]})
         mismatches += [("puppet replay of ReadyQueue.tla edge cover (%s)" % tag, evs, a, k, d) for a, k, d in mism]
+    walk, ops, st, sb, t, nl, mism = f_wit.result()
+    total["hist"] += st["behaviours"] + sb["behaviours"]
+    total["events"] += nl
+    wit_stats = {"atomic_step_witness": [[s["a"]] + s["args"] for s in walk], "burst_witness": ops,
+                 "witness_drift_expected_on_correct_code": st["drift"], "burst_deadline_hits": sb["deadline_hits"]}
+    ctx.log("witnesses: LPopNoRecheck counterexample (%d steps) x%d: drift %d (expected on correct code); SignalOnFirstOnly burst %s x%d; "
+            "monitor mismatches %d" % (len(walk), st["behaviours"], st["drift"], [(o["op"], o["t"], o["n"]) for o in ops],
+                                       sb["behaviours"], len(mism)))
+    mismatches += [("fixed witness schedules (TLC counterexamples of Defects branches)", t, a, k, d) for a, k, d in mism]
     beh, st, evs, nl, mism, cdrift = f_seq.result()
     total["hist"] += st["behaviours"]
     total["events"] += nl
@@ -218,7 +291,7 @@ def run(ctx, pid):
            "edge_cover_walks_replayed": total["walks"], "atomic_steps_replayed": total["steps"], "replay_drift": total["drift"],
            "conformance_drift": conf_drift, "events_validated": total["events"], "monitor_mismatches": len(mismatches),
            "macro_ops": {k: seq_stats[k] for k in ("behaviours", "ops", "spills", "grows", "multi_item_steals", "skipped_takes")},
-           "notes": notes, "exhaustive": False}
+           "witnesses": wit_stats, "notes": notes, "exhaustive": False}
     assumptions = ["pushLocal is called by the owning worker only (as worker.reschedule does)",
                    "puppet replays cover the schedules in which a signalled worker re-acquires parkMu before any other thread "
                    "(the re-acquisition happens inside the Go runtime); other schedules: TLC (Handoff=FALSE) and free-running runs",
